@@ -38,6 +38,11 @@ def build_harness(root):
         shutil.copyfile("/repo/go.sum", os.path.join(hdir, "go.sum"))
         rc, out = sh(["go", "build", "-tags", "verif", "-o", os.path.join(root, "build", "harness"), "."],
                      cwd=hdir, env=GOENV, timeout=600)
+        if rc == 0:
+            # the command-line converters, built from the working tree too (C10)
+            rc2, out2 = sh(["go", "build", "-o", os.path.join(root, "build", "refmt-cli"), "./cmd/refmt"], cwd="/repo", env=GOENV, timeout=600)
+            if rc2 != 0:
+                rc, out = rc2, out + out2
     return rc == 0, out
 
 def build_extract(root):
@@ -207,7 +212,7 @@ def run_harness(root, cases_path, out_path, timeout, per_case_timeout=60):
     results = {}
     pos = 0
     hbin = os.path.join(root, "build", "harness")
-    env = dict(os.environ, GOMEMLIMIT="6GiB", GOTRACEBACK="single")
+    env = dict(os.environ, GOMEMLIMIT="6GiB", GOTRACEBACK="single", REFMT_CLI=os.path.join(root, "build", "refmt-cli"))
     t_end = time.time() + timeout
     while pos < len(lines):
         chunk = lines[pos:]
